@@ -5,7 +5,7 @@
 (*   ast    the generator's abstract syntax tree (XlSyntax node records)   *)
 (*   style  the rendering style the generator used                         *)
 (*   text   the formula text handed to the library (code points)           *)
-(*   cells  <<[sheet, col, row, v]>> constants of the workbook             *)
+(*   cells  <<[sheet, col, row, v]>> constants (or [.., ast] formula cells)*)
 (*   sheet  the sheet of the formula cell                                  *)
 (*   res    the projected result                                           *)
 (* The generator is itself held to the specification: the text must be the *)
@@ -31,7 +31,8 @@ WellParen(a) ==
 
 WbOf(e) == [cells |-> [k \in {<<e.cells[i].sheet, e.cells[i].col, e.cells[i].row>> : i \in 1..Len(e.cells)} |->
                          LET i == CHOOSE j \in 1..Len(e.cells) : <<e.cells[j].sheet, e.cells[j].col, e.cells[j].row>> = k
-                         IN [c |-> "const", v |-> e.cells[i].v]],
+                         IN IF "ast" \in DOMAIN e.cells[i] THEN [c |-> "formula", ast |-> e.cells[i].ast]
+                            ELSE [c |-> "const", v |-> e.cells[i].v]],
             names |-> <<>>]
 
 Verdict(e, x) ==
